@@ -93,6 +93,37 @@ class C11(SolverSuite):
     def monitors(self):
         return []
 
+    def cases(self, rng, tier, run_seed, idx=0):
+        if tier == "thorough" and idx % 50 == 7:
+            # supplement: ALL 2^(n-1) compositions of a short run (n <= 9), plus all of n+1 (overshoot)
+            spec = G.gen_actor(rng, max_iters=9, refine=False, shipped_prob=0.1, small_iters_prob=0.0)
+            spec["params"]["itersLimit"] = rng.randint(2, 9)
+            twin = fork_call(solo_run, spec, [{"op": "create"}, {"op": "solve"}])
+            n = len([c for c in twin["calls"] if c[0] == "global"])
+            clock = G.gen_clock(rng)
+            for total in (n, n + 1):
+                if total < 1 or total > 10:
+                    continue
+                for mask in range(2 ** (total - 1)):
+                    batches, cur = [], 1
+                    for b in range(total - 1):
+                        if mask >> b & 1:
+                            batches.append(cur)
+                            cur = 1
+                        else:
+                            cur += 1
+                    batches.append(cur)
+                    ops = [{"a": "S0", "op": "create"}] + [{"a": "S0", "op": "iterate", "k": k} for k in batches] + [{"a": "S0", "op": "solve"}]
+                    yield G.base_plan(self.prop, run_seed, {"S0": spec}, ops, clock=clock, exhaustive_family=[n, total])
+            return
+        if tier == "thorough" and idx % 50 == 23:
+            # supplement: the same plans re-executed in a fresh interpreter under another PYTHONHASHSEED
+            plans = [self.gen_plan(rng, tier, run_seed) for _ in range(12)]
+            yield {"property": self.prop, "suite": "solver", "format": 1, "run_seed": run_seed, "xproc_batch": plans,
+                   "hashseed": rng.choice(["0", "1", "12345", "random"])}
+            return
+        yield self.gen_plan(rng, tier, run_seed)
+
     def gen_plan(self, rng, tier, run_seed):
         L = rng.randint(3, 60) if rng.random() < 0.85 else rng.randint(60, 250)
         spec = G.gen_actor(rng, max_iters=L, refine=(rng.random() < 0.15), shipped_prob=0.1, small_iters_prob=0.1)
@@ -106,9 +137,56 @@ class C11(SolverSuite):
             ops.append({"a": "S0", "op": "solve"})
         elif u < 0.4:
             ops += [{"a": "S0", "op": "results"}, {"a": "S0", "op": "solve"}]
-        return G.base_plan(self.prop, run_seed, {"S0": spec}, ops, clock=G.gen_clock(rng))
+        actors = {"S0": spec}
+        if rng.random() < 0.3:
+            # a decoy: another live solver of the same dimension on a different box, created (and
+            # possibly stepped) somewhere in between - the sequence must be a function of S0's own
+            # problem and parameters only
+            N = spec["objective"]["N"]
+            actors["D"] = G.gen_actor(rng, max_iters=10, dims=(N,), shipped_prob=0.0, refine=False)
+            dops = [{"a": "D", "op": "create"}]
+            if rng.random() < 0.6:
+                dops += [{"a": "D", "op": "iterate", "k": rng.randint(1, 3)} for _ in range(rng.randint(1, 3))]
+            pos = sorted(rng.randint(0, len(ops)) for _ in dops)
+            for off, (i, o) in enumerate(zip(pos, dops)):
+                ops.insert(i + off, o)
+        return G.base_plan(self.prop, run_seed, actors, ops, clock=G.gen_clock(rng))
+
+    def check_xproc(self, plan):
+        import subprocess
+        import tempfile
+        rep = Report()
+        mine = []
+        for sub in plan["xproc_batch"]:
+            w = World(sub, []).run()
+            mine.append(w.digest())
+        rep.n_exec = len(mine)
+        with tempfile.NamedTemporaryFile("w", suffix=".json", delete=False) as f:
+            json.dump(plan["xproc_batch"], f)
+            path = f.name
+        try:
+            env = dict(os.environ, PYTHONHASHSEED=plan.get("hashseed", "random"))
+            cp = subprocess.run([os.path.join(core.VERIF_DIR, "check"), "selftest", "plan-digests", path], capture_output=True,
+                                text=True, env=env, timeout=900)
+        finally:
+            os.unlink(path)
+        theirs = [l.split()[1] for l in cp.stdout.splitlines() if l.startswith("PLANDIGEST ")]
+        if cp.returncode != 0 or len(theirs) != len(mine):
+            raise core.HarnessError("plan-digest subprocess failed: rc=%s %s %s" % (cp.returncode, cp.stdout[-500:], cp.stderr[-800:]))
+        rep.n_exec += len(theirs)
+        for i, (a, b) in enumerate(zip(mine, theirs)):
+            if a != b:
+                rep.violations.append(core.Violation(self.prop, "fresh_interpreter_differs", "plan %d of the batch gives a different history in a fresh "
+                                                     "interpreter (PYTHONHASHSEED=%s)" % (i, plan.get("hashseed")), "repeat"))
+                break
+        rep.digest = core.sha("".join(mine))
+        rep.probes["fresh_interpreter_plans"] += len(mine)
+        rep.nontrivial = core.short_hash(mine)
+        return rep
 
     def check(self, plan):
+        if "xproc_batch" in plan:
+            return self.check_xproc(plan)
         rep = Report()
         spec = plan["actors"]["S0"]
         ops = [o for o in plan["ops"] if o["a"] == "S0"]
@@ -187,6 +265,8 @@ class C11(SolverSuite):
         rep.probes["overshoot"] += int(sumk > tstar)
         rep.probes["exact_stop"] += int(sumk == tstar)
         rep.probes["repeated_solve"] += int(n_solve >= 2)
+        rep.probes["exhaustive_family_members"] += int("exhaustive_family" in plan)
+        rep.probes["with_decoy_solver"] += int("D" in plan["actors"])
         return rep
 
     def extra_cases(self, tier):
@@ -266,6 +346,23 @@ class C12(SolverSuite):
     def monitors(self):
         return [IsolationMonitor(), Summarizer()]
 
+    def cases(self, rng, tier, run_seed, idx=0):
+        if tier == "thorough" and idx % 40 == 11:
+            # supplement: ALL C(a+b, a) step interleavings of two solvers with a, b <= 4
+            a_n, b_n = rng.randint(1, 4), rng.randint(1, 4)
+            actors = {"S0": G.gen_actor(rng, max_iters=8, refine=False, shipped_prob=0.05),
+                      "S1": G.gen_actor(rng, max_iters=8, refine=False, shipped_prob=0.05)}
+            clock = G.gen_clock(rng)
+            last = rng.choice(["results", "solve"])
+            for pos in itertools.combinations(range(a_n + b_n), a_n):
+                ops = [{"a": "S0", "op": "create"}, {"a": "S1", "op": "create"}]
+                for i in range(a_n + b_n):
+                    ops.append({"a": "S0" if i in pos else "S1", "op": "iterate", "k": 1})
+                ops += [{"a": "S0", "op": last}, {"a": "S1", "op": last}]
+                yield G.base_plan(self.prop, run_seed, actors, ops, clock=clock, exhaustive_family=[a_n, b_n])
+            return
+        yield self.gen_plan(rng, tier, run_seed)
+
     def gen_plan(self, rng, tier, run_seed):
         n_act = rng.choice([2, 2, 2, 3, 3, 4])
         actors = {}
@@ -343,6 +440,7 @@ class C12(SolverSuite):
         if n_busy >= 2 and n_alt:
             rep.nontrivial = rep.sig
         rep.probes["nested_fired"] += w.fired["obj_reenter"] + w.fired["listener_reenter"]
+        rep.probes["exhaustive_family_members"] += int("exhaustive_family" in plan)
         return rep
 
 
@@ -678,7 +776,11 @@ class C16(SolverSuite):
     def monitors(self):
         return [C06Monitor()]
 
-    def cases(self, rng, tier, run_seed):
+    def cases(self, rng, tier, run_seed, idx=0):
+        if idx % 5 == 3:
+            for p in self.cases_refine(rng, tier, run_seed):
+                yield p
+            return
         L = rng.randint(3, 40) if rng.random() < 0.9 else rng.randint(40, 150)
         spec = G.gen_actor(rng, max_iters=L, refine=False, shipped_prob=0.08, small_iters_prob=0.05,
                            families=(TIE_FAMILIES if rng.random() < 0.25 else None))
@@ -708,6 +810,101 @@ class C16(SolverSuite):
                     yield G.base_plan(self.prop, run_seed, {"S0": spec}, ops, clock=clock,
                                       faults=[{"a": "S0", "at_eval": k, "exc": exc, "when": when, "persistent": rng.random() < 0.3}])
 
+    def cases_refine(self, rng, tier, run_seed):
+        """refineSolution=True: the failing evaluation ranges over the global AND the local phase."""
+        L = rng.randint(3, 25)
+        spec = G.gen_actor(rng, max_iters=L, refine=True, shipped_prob=0.05, small_iters_prob=0.05)
+        spec["params"]["itersLimit"] = min(spec["params"]["itersLimit"], L)
+        twin = _twin_for(spec)
+        calls = [c for c in twin["calls"]]
+        T = len([c for c in calls if c[0] == "global"])
+        if twin["aborted"] or (twin["ops"] and twin["ops"][0].get("raised")) or T < 2:
+            yield G.base_plan(self.prop, run_seed, {"S0": spec}, [{"a": "S0", "op": "create"}, {"a": "S0", "op": "solve"}],
+                              faults=[{"a": "S0", "at_eval": 2, "exc": "ValueError", "when": "before"}])
+            return
+        total = len(calls)
+        ks = list(range(2, total + 1))
+        if len(ks) > 80:
+            ks = sorted(rng.sample(ks, 80))
+        clock = G.gen_clock(rng)
+        for k in ks:
+            for exc in rng.sample(FAULT_KINDS, 3):
+                when = rng.choice(["before", "after"])
+                ops = [{"a": "S0", "op": "create"}, {"a": "S0", "op": "solve"}]
+                if rng.random() < 0.2:
+                    ops.append({"a": "S0", "op": "results"})
+                yield G.base_plan(self.prop, run_seed, {"S0": spec}, ops, clock=clock, refine_case=True,
+                                  faults=[{"a": "S0", "at_eval": k, "exc": exc, "when": when, "persistent": rng.random() < 0.3}])
+
+    def check_refine(self, plan, rep, twin, bad):
+        spec = plan["actors"]["S0"]
+        tg = [(y, v) for (ph, y, v, f) in twin["calls"] if ph == "global"]
+        T = len(tg)
+        total = len(twin["calls"])
+        ft = plan["faults"][0]
+        k = int(ft["at_eval"])
+        if k > total or k < 2:
+            rep.inconclusive["fault_beyond_run"] += 1
+            return rep
+        w = World(plan, []).run()
+        rep.absorb_world(w)
+        rep.digest = w.digest()
+        rep.sig = core.short_hash((w.sig, k, ft["exc"], ft.get("when")))
+        a = w.actors["S0"]
+        phase = "global" if k <= T else "local"
+        tag = "fault %s(%s) at evaluation %d (%s phase, refineSolution=True)" % (ft["exc"], ft.get("when", "before"), k, phase)
+        if not a.fired_faults:
+            rep.inconclusive["fault_not_fired"] += 1
+            return rep
+        if not a.solve_info:
+            rep.inconclusive["no_solve"] += 1
+            return rep
+        if a.solve_info[0]["raised"]:
+            bad("escaped", "%s: Solve did not return, it raised %s" % (tag, a.solve_info[0]["raised"]), ft["exc"] + "/" + phase)
+            return rep
+        real = [c for c in a.calls if c.phase != "probe"]
+        n_expect = k - 1 if k <= T else T
+        doneg = [(c.y, c.value) for c in real if c.completed and c.phase in ("global", "global_extra")]
+        d = first_diff(doneg, tg[:n_expect])
+        if d:
+            bad("prefix", "%s: completed global trials differ from the fault-free run at trial %d: %r vs %r" % (tag, d[0] + 1, d[1], d[2]))
+            return rep
+        sols = [s for s in a.solutions if s["kind"] == "solve"]
+        if not sols or "error" in sols[0]:
+            bad("result", "%s: Solve returned an unreadable result" % tag)
+            return rep
+        s0 = sols[0]
+        if s0["nglobal"] != n_expect:
+            bad("count", "%s: result reports %d global trials, %d were completed" % (tag, s0["nglobal"], n_expect))
+            return rep
+        done_all = [c for c in real if c.completed]
+        hit = [c for c in done_all if c.y == s0["point"]]
+        if not hit:
+            bad("best_point", "%s: result point %r was never successfully evaluated" % (tag, s0["point"]))
+            return rep
+        if not any(c.value == s0["value"] for c in hit):
+            bad("best_value", "%s: result value %r, the objective at the result point %r returned %r" % (tag, s0["value"], s0["point"], hit[0].value))
+            return rep
+        mn = min(v for (y, v) in tg[:n_expect])
+        if s0["value"] > mn:
+            bad("best_value", "%s: result value %r is worse than the best of the %d completed global trials %r" % (tag, s0["value"], n_expect, mn))
+            return rep
+        xk = twin["trials"][k - 1][0] if (k <= T and len(twin["trials"]) >= k) else None
+        ww = _Flagger()
+        if not C06Monitor().check_record(ww, a, "after_fault", expect_trials=n_expect, forbid_x=xk):
+            cl, msg = ww.flags[0]
+            bad("record_" + cl, "%s: %s" % (tag, msg))
+            return rep
+        stops = [e for e in a.bracket_events if e[1] == "OnMethodStop"]
+        if len(stops) != len(a.solve_info):
+            bad("method_stop", "%s: OnMethodStop delivered %d times for %d Solve call(s)" % (tag, len(stops), len(a.solve_info)))
+            return rep
+        rep.probes["refine_case_" + phase + "_phase_fault"] += 1
+        rep.probes["refine_case_persistent"] += int(bool(ft.get("persistent")))
+        if T >= 3:
+            rep.nontrivial = core.short_hash((spec["objective"], spec.get("lower"), spec["params"], k, ft["exc"], ft.get("when"), "refine"))
+        return rep
+
     def check(self, plan):
         rep = Report()
         spec = plan["actors"]["S0"]
@@ -717,6 +914,8 @@ class C16(SolverSuite):
             rep.violations.append(core.Violation(P, clause, msg, locus))
         twin = _twin_for(spec)
         rep.n_exec = 2
+        if spec["params"].get("refineSolution") and not (twin["ops"] and twin["ops"][0].get("raised")) and not twin["aborted"]:
+            return self.check_refine(plan, rep, twin, bad)
         if twin["ops"] and twin["ops"][0].get("raised"):
             bad("construct", "Solver(...) raised " + str(twin["ops"][0]["raised"]), "Solver.__init__")
             return rep
